@@ -1,2 +1,241 @@
-"""Sanitizer layers for the thorough tier (L1 Miri, L2 ASan). Filled in per property."""
-LAYERS = {}
+"""Extra builds of the harness that a check runs besides the L0 checked build.
+
+  small   both tiers  the `small-tables` build (rs-matter max-sessions-3 / max-exchanges-per-session-3)
+  asan    thorough    nightly, -Zsanitizer=address: a report is a violation
+  miri    thorough    `cargo +nightly miri run`, Tree Borrows, reduced workloads: UB is a violation
+
+Every layer function returns (reports, problems, info). A sanitizer finding is turned into a
+synthetic report with one violation so that it goes through the same known-finding matching as
+the oracles' violations; a time-out or a crash that is not a sanitizer report is a *problem*
+(=> inconclusive), never a violation.
+"""
+import json
+import os
+import re
+import subprocess
+import time
+
+VERIF = os.path.dirname(os.path.abspath(__file__))
+HARNESS = os.path.join(VERIF, "harness")
+NCPU = os.cpu_count() or 8
+
+
+def _cargo(cmd, env, target_dir, extra_env=None):
+    e = dict(env)
+    e["CARGO_TARGET_DIR"] = target_dir
+    e["CARGO_NET_OFFLINE"] = "true"
+    if extra_env:
+        e.update(extra_env)
+    t0 = time.time()
+    p = subprocess.run(cmd, cwd=HARNESS, env=e, stdout=subprocess.PIPE, stderr=subprocess.STDOUT, text=True)
+    return p.returncode == 0, time.time() - t0, p.stdout
+
+
+def _run_many(cmds, env, timeout_s, outdir, tag):
+    """cmds: list of (index, argv, out_json). Runs them in parallel (<= NCPU at a time)."""
+    os.makedirs(outdir, exist_ok=True)
+    pending = list(cmds)
+    running = []
+    done = []
+    deadline = time.time() + timeout_s
+    while pending or running:
+        while pending and len(running) < NCPU:
+            i, argv, out = pending.pop(0)
+            if os.path.exists(out):
+                os.remove(out)
+            errp = os.path.join(outdir, f"{tag}{i}.err")
+            errf = open(errp, "w")
+            running.append((i, out, errp, errf, subprocess.Popen(argv, cwd=VERIF, env=env, stdout=errf, stderr=errf)))
+        still = []
+        for i, out, errp, errf, p in running:
+            rc = p.poll()
+            if rc is None:
+                if time.time() > deadline:
+                    p.kill()
+                    p.wait()
+                    errf.close()
+                    done.append((i, out, errp, "watchdog"))
+                else:
+                    still.append((i, out, errp, errf, p))
+            else:
+                errf.close()
+                done.append((i, out, errp, rc))
+        running = still
+        if running:
+            time.sleep(0.2)
+    return done
+
+
+def _synthetic(pid, layer, kind, where, text, argv):
+    sig = f"{pid}/{layer}/{kind}/{where}"
+    return {
+        "evaluations": 0, "distinct": [], "interleavings": [], "counters": {f"{layer}_reports": 1},
+        "violations": [{
+            "rule": layer,
+            "signature": sig,
+            "detail": text[-3000:],
+            "replay": {"check": pid, "layer": layer, "argv": argv},
+        }],
+    }
+
+
+# ------------------------------------------------------------------------------------------
+# small tables
+# ------------------------------------------------------------------------------------------
+
+def small_binary(env):
+    tdir = os.path.join(HARNESS, "target", "small")
+    ok, secs, out = _cargo(["cargo", "build", "--offline", "--bin", "rsmv", "--features", "small-tables"], env, tdir)
+    return ok, secs, out, os.path.join(tdir, "debug", "rsmv")
+
+
+def small_tables(pid, seed, env, tier):
+    ok, secs, out, binary = small_binary(env)
+    info = dict(build_s=round(secs, 1), build="small-tables (3 sessions x 3 exchanges)")
+    if not ok:
+        return [], ["small-tables build failed:\n" + out[-2000:]], info
+    outdir = os.path.join(HARNESS, "target", "shards", f"{pid}-small-{os.getpid()}")
+    cmds = []
+    for i in range(NCPU):
+        o = os.path.join(outdir, f"s{i}.json")
+        argv = [binary, "run", pid, "--seed", str(seed), "--shard", f"{i}/{NCPU}", "--out", o]
+        if tier == "thorough":
+            argv.append("--thorough")
+        cmds.append((i, argv, o))
+    done = _run_many(cmds, env, 900 if tier == "quick" else 5400, outdir, "s")
+    reports, problems = [], []
+    for i, o, errp, rc in done:
+        if rc == 0 and os.path.exists(o):
+            reports.append(json.load(open(o)))
+        else:
+            problems.append(f"small-tables shard {i}: {rc} (inconclusive)\n" + open(errp).read()[-800:])
+    info["shards"] = len(reports)
+    info["evaluations"] = sum(r.get("evaluations", 0) for r in reports)
+    if info["evaluations"] == 0:
+        problems.append("small-tables build evaluated nothing")
+    return reports, problems, info
+
+
+# ------------------------------------------------------------------------------------------
+# ASan
+# ------------------------------------------------------------------------------------------
+
+ASAN_RE = re.compile(r"ERROR: AddressSanitizer: (\S+)")
+FRAME_RE = re.compile(r"#\d+ 0x[0-9a-f]+ in (\S+) (/repo/\S+|src/\S+)")
+
+
+def asan(pid, seed, env, tier, scale=1.0):
+    tdir = os.path.join(HARNESS, "target", "asan")
+    ok, secs, out = _cargo(
+        ["cargo", "+nightly", "build", "--offline", "--bin", "rsmv", "--target", "x86_64-unknown-linux-gnu"],
+        env, tdir, {"RUSTFLAGS": "-Zsanitizer=address -Cforce-frame-pointers=yes"})
+    info = dict(build_s=round(secs, 1), build="nightly -Zsanitizer=address", scale=scale)
+    if not ok:
+        return [], ["ASan build failed (inconclusive):\n" + out[-2000:]], info
+    binary = os.path.join(tdir, "x86_64-unknown-linux-gnu", "debug", "rsmv")
+    e = dict(env)
+    e["ASAN_OPTIONS"] = "halt_on_error=1:abort_on_error=0:detect_leaks=0:exitcode=77:detect_stack_use_after_return=0"
+    outdir = os.path.join(HARNESS, "target", "shards", f"{pid}-asan-{os.getpid()}")
+    cmds = []
+    for i in range(NCPU):
+        o = os.path.join(outdir, f"s{i}.json")
+        cmds.append((i, [binary, "run", pid, "--seed", str(seed), "--shard", f"{i}/{NCPU}", "--scale", str(scale),
+                         "--mode", "asan", "--out", o], o))
+    done = _run_many(cmds, e, 3600, outdir, "a")
+    reports, problems = [], []
+    for i, o, errp, rc in done:
+        text = open(errp).read()
+        m = ASAN_RE.search(text)
+        if m:
+            fr = FRAME_RE.search(text)
+            where = (fr.group(1).split("::")[-2:] if fr else ["unknown-frame"])
+            reports.append(_synthetic(pid, "asan", m.group(1), "::".join(where), text[text.find("ERROR: AddressSanitizer"):],
+                                      cmds[i][1]))
+        elif rc == 0 and os.path.exists(o):
+            reports.append(json.load(open(o)))
+        else:
+            problems.append(f"asan shard {i}: {rc} (inconclusive)\n" + text[-800:])
+    info["shards"] = len(reports)
+    info["evaluations"] = sum(r.get("evaluations", 0) for r in reports)
+    return reports, problems, info
+
+
+# ------------------------------------------------------------------------------------------
+# Miri
+# ------------------------------------------------------------------------------------------
+
+MIRI_RE = re.compile(r"^error: (Undefined Behavior|unsupported operation|memory leaked|.*data race)[^\n]*", re.M)
+MIRI_AT = re.compile(r"-->\s+(/repo/\S+|src/\S+?):(\d+):\d+")
+
+# property -> (scale, shards, per-process time-out seconds). Measured: see DESIGN.md section 6.
+MIRI_PLAN = {
+    "C04": (0.0005, 16, 1500),
+    "C05": (0.00005, 16, 1500),
+    "C16": (0.0002, 16, 2400),
+    "C17": (0.0001, 8, 3000),
+}
+
+
+def miri(pid, seed, env, tier):
+    scale, shards, tmo = MIRI_PLAN[pid]
+    tdir = os.path.join(HARNESS, "target", "miri")
+    e = dict(env)
+    e["CARGO_TARGET_DIR"] = tdir
+    e["CARGO_NET_OFFLINE"] = "true"
+    # Tree Borrows: Stacked Borrows rejects the self-referential futures every async program
+    # is made of (see DESIGN.md); leaks: the harness leaks on purpose (Box::leak'ed worlds).
+    e["MIRIFLAGS"] = "-Zmiri-disable-isolation -Zmiri-tree-borrows -Zmiri-ignore-leaks"
+    outdir = os.path.join(HARNESS, "target", "shards", f"{pid}-miri-{os.getpid()}")
+    os.makedirs(outdir, exist_ok=True)
+    base = ["cargo", "+nightly", "miri", "run", "--offline", "--bin", "rsmv", "--"]
+    # warm-up = build (one process; `selftest` returns at once)
+    t0 = time.time()
+    w = subprocess.run(base + ["version"], cwd=HARNESS, env=e, stdout=subprocess.PIPE, stderr=subprocess.STDOUT, text=True)
+    info = dict(build_s=round(time.time() - t0, 1), build="cargo +nightly miri run (Tree Borrows, leaks ignored)", scale=scale)
+    if "Finished" not in w.stdout and "Running" not in w.stdout:
+        return [], ["miri build failed (inconclusive):\n" + w.stdout[-2000:]], info
+    cmds = []
+    for i in range(shards):
+        o = os.path.join(outdir, f"s{i}.json")
+        cmds.append((i, base + ["run", pid, "--seed", str(seed), "--shard", f"{i}/{shards}", "--scale", str(scale),
+                                "--mode", "miri", "--out", o], o))
+    # cargo needs cwd = harness
+    done = _run_many_cwd(cmds, e, tmo, outdir, "m", HARNESS)
+    reports, problems = [], []
+    for i, o, errp, rc in done:
+        text = open(errp).read()
+        m = MIRI_RE.search(text)
+        if m:
+            at = MIRI_AT.search(text[m.start():])
+            where = f"{os.path.basename(at.group(1))}" if at else "unknown"
+            kind = m.group(1).replace(" ", "-").lower()
+            reports.append(_synthetic(pid, "miri", kind, where, text[m.start():m.start() + 3000], cmds[i][1]))
+        elif rc == 0 and os.path.exists(o):
+            reports.append(json.load(open(o)))
+        else:
+            problems.append(f"miri shard {i}: {rc} (inconclusive)\n" + text[-600:])
+    info["shards"] = len(reports)
+    info["evaluations"] = sum(r.get("evaluations", 0) for r in reports)
+    return reports, problems, info
+
+
+def _run_many_cwd(cmds, env, timeout_s, outdir, tag, cwd):
+    global VERIF
+    old = VERIF
+    VERIF = cwd
+    try:
+        return _run_many(cmds, env, timeout_s, outdir, tag)
+    finally:
+        VERIF = old
+
+
+# property -> list of (layer name, function, tiers)
+LAYERS = {
+    "C20": [("small-tables", small_tables, ("quick", "thorough"))],
+    "C10": [("small-tables", small_tables, ("quick", "thorough"))],
+}
+
+for _p in ("C03", "C09", "C10", "C14", "C16", "C17", "C18", "C20"):
+    LAYERS.setdefault(_p, []).append(("asan", asan, ("thorough",)))
+for _p in MIRI_PLAN:
+    LAYERS.setdefault(_p, []).append(("miri", miri, ("thorough",)))
